@@ -196,6 +196,7 @@ func (p *Program) resolveRenames() {
 		return
 	}
 	p.alias = map[*ssa.Function]string{}
+	p.renameCand = map[*ssa.Function]bool{}
 	units := p.anchorUnits()
 	present := map[string]bool{}
 	for _, u := range units {
@@ -299,6 +300,11 @@ func (p *Program) resolveRenames() {
 					if dropped && fp.Recv != "" {
 						continue
 					}
+				}
+				if !sameName {
+					// a new function with the signature of a recorded function that disappeared: possibly
+					// its renamed successor whose body changed too much (yet) to be matched
+					p.renameCand[cand.Fn] = true
 				}
 				callees := make([]string, len(fp.Callees))
 				for j, c := range fp.Callees {
